@@ -6,6 +6,8 @@ may touch": every write of the edit code is an in-place mutation of a `Binding` 
 `attrpath_order`), or the allocation of a fresh identity.
 -/
 namespace Nima
+-- name tokens are compared by spelling in this file (see `NameCmp` in Model/Edit.lean)
+attribute [local instance] NameCmp.spelled
 
 open Node
 
